@@ -8,7 +8,9 @@ package main
 //   wpRegions_<fn>  : List (List String)   one entry per `wp.lock.Lock() … wp.lock.Unlock()` region, in source order,
 //                                          each the sorted set of what happens inside it:
 //                                          "r:<field>" / "w:<field>" for wp.ready, wp.mustStop, wp.workersCount, and
-//                                          "send" for a channel send statement
+//                                          "send" for a plain (blocking) channel send statement, "selsend" for a send that is
+//                                          a case of a select without default, "trysend" for one in a select WITH default
+//                                          (non-blocking: the value is dropped if nobody receives)
 //   wpUnlocked_<fn> : List String          the same tokens for what happens outside every region
 // A function literal (`go func() {…}()`) is skipped: it does not run inside the caller's region.
 // Anything unexpected yields a `-- MISSING` comment, so the dependent theorem stops compiling.
@@ -202,9 +204,27 @@ func (s *wpRegionScan) stmt(st ast.Stmt) {
 			}
 		}
 	case *ast.SelectStmt:
+		// the KIND of a send matters: a select with a default clause does not wait for the receiver ("trysend": the
+		// value may be dropped), a select without default waits for one of its cases ("selsend")
+		hasDefault := false
+		for _, c := range x.Body.List {
+			if cc, ok := c.(*ast.CommClause); ok && cc.Comm == nil {
+				hasDefault = true
+			}
+		}
 		for _, c := range x.Body.List {
 			if cc, ok := c.(*ast.CommClause); ok {
-				s.stmt(cc.Comm)
+				if snd, ok := cc.Comm.(*ast.SendStmt); ok {
+					s.reads(snd.Chan)
+					s.reads(snd.Value)
+					if hasDefault {
+						s.note("trysend")
+					} else {
+						s.note("selsend")
+					}
+				} else {
+					s.stmt(cc.Comm)
+				}
 				s.branch(cc.Body)
 			}
 		}
@@ -238,7 +258,7 @@ func sortedKeys(m map[string]bool) []string {
 func genWpRegions(p *pkgInfo, out string) {
 	var b bytes.Buffer
 	b.WriteString("-- GENERATED by fhextract from /repo/workerpool.go; do not edit.\nnamespace Fh.Gen\n\n")
-	for _, fn := range []string{"getCh", "release", "clean", "Stop", "workerFunc"} {
+	for _, fn := range []string{"getCh", "release", "clean", "Stop", "workerFunc", "Serve"} {
 		fd := p.funcDecl("workerPool", fn)
 		if fd == nil || fd.Body == nil || fd.Recv == nil || len(fd.Recv.List) != 1 || len(fd.Recv.List[0].Names) != 1 {
 			fmt.Fprintf(&b, "-- MISSING: (workerPool).%s\n", fn)
